@@ -52,33 +52,38 @@ Definition open_and_read (fuel : nat) (root : node) (cwd : path) (fnfull : str) 
       end
   end.
 
+(** The path the function settles on before any check: the real path of the
+    joined name, then the implicit [.tex], then [.latex], each only if what we
+    have so far does not exist. *)
+Definition candidate (fuel : nat) (root : node) (cwd : path) (dir fn : str) : option str :=
+  match realpath fuel root cwd (os_path_join dir fn) with
+  | None => None
+  | Some fnfull0 =>
+    match ext_fallback fuel root cwd fnfull0 ext_tex with
+    | None => None
+    | Some fnfull1 => ext_fallback fuel root cwd fnfull1 ext_latex
+    end
+  end.
+
 (** The fixed [read_latex_file(tex_input_directory, strict_input, fn)]. *)
 Definition read_latex_file (fuel : nat) (root : node) (cwd : path)
            (dir : str) (strict : bool) (fn : str) : rres :=
-  match realpath fuel root cwd (os_path_join dir fn) with
+  match candidate fuel root cwd dir fn with
   | None => Loop
-  | Some fnfull0 =>
-    match ext_fallback fuel root cwd fnfull0 ext_tex with
-    | None => Loop
-    | Some fnfull1 =>
-      match ext_fallback fuel root cwd fnfull1 ext_latex with
-      | None => Loop
-      | Some fnfull2 =>
-        if strict then
-          match realpath fuel root cwd fnfull2 with
+  | Some fnfull =>
+      if strict then
+        match realpath fuel root cwd fnfull with                    (* fnfull = os.path.realpath(fnfull) *)
+        | None => Loop
+        | Some fnreal =>
+          match realpath fuel root cwd dir with                     (* dirfull = os.path.realpath(dir) *)
           | None => Loop
-          | Some fnreal =>
-            match realpath fuel root cwd dir with
-            | None => Loop
-            | Some dirfull =>
-                if is_within dirfull fnreal
-                then open_and_read fuel root cwd fnreal
-                else Ret []
-            end
+          | Some dirfull =>
+              if is_within dirfull fnreal
+              then open_and_read fuel root cwd fnreal
+              else Ret []
           end
-        else open_and_read fuel root cwd fnfull2
-      end
-    end
+        end
+      else open_and_read fuel root cwd fnfull
   end.
 
 (** [LatexNodes2Text.read_input_file]: no directory set, no file access. *)
